@@ -34,7 +34,8 @@ pub fn dump_crate<'tcx>(tcx: TyCtxt<'tcx>) -> J {
             hir::ItemKind::Impl(imp) => {
                 impls.push(d.dump_impl(did, imp));
                 if let Some(of) = imp.of_trait {
-                    if matches!(of.safety, hir::Safety::Unsafe) {
+                    // `#[derive(Clone, Copy)]` expands to a compiler-generated `unsafe impl TrivialClone`: not user code
+                    if matches!(of.safety, hir::Safety::Unsafe) && !item.span.from_expansion() {
                         unsafe_items += 1;
                     }
                 }
